@@ -2,7 +2,10 @@ module github.com/jhalter/mobius/verifharness
 
 go 1.23
 
-require github.com/jhalter/mobius v0.0.0
+require (
+	github.com/jhalter/mobius v0.0.0
+	gopkg.in/yaml.v3 v3.0.1
+)
 
 require (
 	github.com/davecgh/go-spew v1.1.1 // indirect
@@ -20,7 +23,6 @@ require (
 	golang.org/x/text v0.20.0 // indirect
 	golang.org/x/time v0.8.0 // indirect
 	gopkg.in/natefinch/lumberjack.v2 v2.2.1 // indirect
-	gopkg.in/yaml.v3 v3.0.1 // indirect
 )
 
 replace github.com/jhalter/mobius => /repo
